@@ -110,3 +110,15 @@ Definition format_bytes (orders : nat -> list pname) (limit : N) (contents : str
 (* lines other than definition / include / include-except directives (C09 idempotence, partial) *)
 Definition not_a_file_directive (line : str) : Prop :=
   m_definition line = None /\ m_include line = None /\ m_include_except line = None.
+
+(* the eight directive patterns give the same answers on two lines (C10) *)
+Record same_reading (a b : str) : Prop := {
+  sr_start : m_block_start a = m_block_start b;
+  sr_end : m_block_end a = m_block_end b;
+  sr_flags : m_flags a = m_flags b;
+  sr_prefix : m_prefix a = m_prefix b;
+  sr_suffix : m_suffix a = m_suffix b;
+  sr_def : m_definition a = m_definition b;
+  sr_inc : m_include a = m_include b;
+  sr_exc : m_include_except a = m_include_except b
+}.
